@@ -3,6 +3,7 @@ package main
 import (
 	"encoding/json"
 	"fmt"
+	ogm "github.com/weedbox/pokertable/open_game_manager"
 	"os"
 	"strings"
 	"sync"
@@ -119,13 +120,7 @@ func (lr *lifeRun) quiescentObs() LObs {
 		gs := g.GetState()
 		o.GateCount = gs.GameCount
 		o.GateN = len(gs.Participants)
-		all := len(gs.Participants) > 0
-		for _, p := range gs.Participants {
-			if !p.IsReady {
-				all = false
-			}
-		}
-		o.GateReady = all
+		o.GateReady = gateAllReady(g)
 	}
 	return o
 }
@@ -138,6 +133,18 @@ func (lr *lifeRun) eventObs() []LObs {
 		}
 	}
 	return out
+}
+
+// readiness of the gate, read from its ready group under that group's lock
+func gateAllReady(g ogm.OpenGameManager) bool {
+	grp := ogm.VerifGroupStates(g)
+	all := len(grp) > 0
+	for _, ready := range grp {
+		if !ready {
+			all = false
+		}
+	}
+	return all
 }
 
 func genBlind(r *RNG) TBlind {
@@ -188,14 +195,7 @@ func runLifeCase(c *LCase) {
 			// nobody signals: wait for the gate's own timeout (2 s) to do it
 			deadline := time.Now().Add(3500 * time.Millisecond)
 			for time.Now().Before(deadline) {
-				o := pt.VerifOpenGameManager(d.te).GetState()
-				all := len(o.Participants) > 0
-				for _, p := range o.Participants {
-					if !p.IsReady {
-						all = false
-					}
-				}
-				if all {
+				if gateAllReady(pt.VerifOpenGameManager(d.te)) {
 					break
 				}
 				time.Sleep(20 * time.Millisecond)
@@ -279,6 +279,27 @@ func runLifeCase(c *LCase) {
 		switch {
 		case x < 7:
 			b := genBlind(r)
+			if pre.Started && pre.GateReady && !pre.HasGame && pre.GateN >= 2 && pre.Status != "table_pausing" && pre.Status != "table_closed" {
+				// the gate has completed and no hand runs: the engine may still be retrying a refused open (every 3 s, for 30 s);
+				// a level supplied now can let the next retry through.  Recorded as the update (a step of its own) followed by the
+				// engine's own retry, observed from the state the update left.
+				post := pre
+				post.Blind = b
+				bb := b
+				c.Steps = append(c.Steps, LStep{Op: "update_blind", Blind: &bb, Pre: pre, Post: post})
+				gc0 := pre.GC
+				st := step("retry_wait", func(s *LStep) {
+					d.te.UpdateBlind(b.Level, b.Ante, b.Dealer, b.SB, b.BB)
+					s.Pre.Blind = b
+					for w := 0; w < 45 && d.te.GetTable().State.GameCount == gc0; w++ {
+						time.Sleep(100 * time.Millisecond)
+					}
+				})
+				if st.Post.GC == gc0 {
+					k = 1000 // the retries may have run out by now: nothing further is observed on this table
+				}
+				continue
+			}
 			step("update_blind", func(s *LStep) { s.Blind = &b; d.te.UpdateBlind(b.Level, b.Ante, b.Dealer, b.SB, b.BB) })
 			continue
 		case x < 9:
